@@ -41,7 +41,8 @@ SHIM = ["-I", vlib.HARNESS + "/shim"]
 # nobody holds it (no deliberate self-reference while it waits for something); incmd = the
 # command(s) of one input ({p} {id} {size} {t} {tm}: t = 100 * id, tm = 100 * (id - 1));
 # label = what names a flow for the flow tags ("letter": the A / B component of the definition
-# string, "hsize": the picture size - pipes that copy only the format of their input).
+# string, "hsize": the picture size, "chan": the number of channels - pipes that copy only the format of
+# their input into a definition string of their own).
 def typ(name, cls="gen", src=None, **kw):
     d = dict(name=name, cls=cls, src=src, alloc=["new p0 " + name], fdp="p0", inp="p0", outp="p0",
              rel=["p0"], fd={"A": "bA", "B": "bB"}, data=True, opt=None, optfd=None, env=[],
@@ -57,6 +58,12 @@ PUMP = ["env upump on", "env uclock on"]
 TSFD = {"A": "bmpegts.A", "B": "bmpegts.B"}
 SATTR = " rate=48000 channels=2 sample_size=4 splanes=1 samples=1024"
 PATTR = " hsize=16 vsize=16 fps=25 pplanes=3"
+
+
+def sfd_chan(fmt="s32"):
+    """flows A and B differ by their number of channels (2 / 4): what a converter copies into its own definition"""
+    return {"A": "x:sound.%s.A. rate=48000 channels=2 sample_size=8 splanes=1 samples=1024" % fmt,
+            "B": "x:sound.%s.B. rate=48000 channels=4 sample_size=16 splanes=1 samples=1024" % fmt}
 
 
 def sfd(fmt="s16"):
@@ -167,9 +174,9 @@ TYPES = [
     typ("ntsc_prepend", fd=PICFD, incmd=PICIN),
     typ("separate_fields", fd=PICFD, incmd=PICIN),
     typ("crop", fd=PICFD, incmd=PICIN),
-    typ("rtp_pcm_pack", fd=sfd("s32"), incmd=SNDIN, dies=False),
+    typ("rtp_pcm_pack", fd=sfd_chan("s32"), incmd=SNDIN, dies=False, label="chan"),
     typ("rtp_pcm_unpack", fd={"A": "x:block.s24be.sound.A. rate=48000 channels=2",
-                              "B": "x:block.s24be.sound.B. rate=48000 channels=2"}, size=192, dies=False),
+                              "B": "x:block.s24be.sound.B. rate=48000 channels=4"}, size=192, dies=False, label="chan"),
     typ("audio_merge", fd=sfd(), incmd=SNDIN, alloc=["newf p0 audio_merge sound.s16." + SATTR]),
     typ("audio_split", fd=sfd(), incmd=SNDIN),
     typ("audiocont", fd=sfd("f32"), incmd=SNDIN, alloc=["newf p0 audiocont sound.f32." + SATTR]),
@@ -354,6 +361,9 @@ def flow_label(T, fl):
     if T["label"] == "hsize":
         m = re.search(r"/h(\d+)$", fl)
         return "h" + m.group(1) if m else ""
+    if T["label"] == "chan":
+        m = re.search(r"/c(\d+)$", fl)
+        return "c" + m.group(1) if m else ""
     m = re.search(r"(?:^|\.)([AB])\.", fl.split("/")[0])
     return m.group(1) if m else ""
 
